@@ -151,6 +151,8 @@ class Lane(LaneBase):
                 oracle = self.oracle(g, s, r, links)
         else:
             tags.append('not-a-dag')          # outside the property's quantifier: correspondence only
+        if not dom and not oracle:
+            oracle = tsgen.coherence_failures(g)
         return {'lines': lines, 'impl': out, 'oracle': oracle, 'nontrivial': dom and len(links) > 0,
                 'key': tsgen.digest(tok), 'tags': tags}
 
